@@ -655,6 +655,48 @@ func ruleAR() Rule {
 			}
 			// AR2: stores conditional on the error state
 			errField := c.fieldVar("interp", "lexer", "err")
+			// parser-side fault flags: fields of the lexer that are only ever assigned in
+			// functions which also store the error slot (the yyLexer's Error method), so
+			// "flag set" implies "a fault was recorded by the parser"
+			faultFlags := map[*types.Var]bool{}
+			{
+				assignedIn := map[*types.Var]map[*core.Func]bool{}
+				storesErr := map[*core.Func]bool{}
+				for _, f := range c.funcsOfPkg("interp", false) {
+					fi := f.Info()
+					f.OwnNodes(func(n ast.Node) bool {
+						if as, ok := n.(*ast.AssignStmt); ok {
+							for _, l := range as.Lhs {
+								if v := core.FieldOf(fi, l); v != nil {
+									if v == errField {
+										storesErr[f.Root()] = true
+									} else if fieldSel(fi, l, "interp", "lexer", v.Name()) {
+										if assignedIn[v] == nil {
+											assignedIn[v] = map[*core.Func]bool{}
+										}
+										assignedIn[v][f.Root()] = true
+									}
+								}
+							}
+						}
+						return true
+					})
+				}
+				for v, fs := range assignedIn {
+					if b, ok := v.Type().Underlying().(*types.Basic); !ok || b.Kind() != types.Bool {
+						continue
+					}
+					all := true
+					for f := range fs {
+						if !storesErr[f] {
+							all = false
+						}
+					}
+					if all {
+						faultFlags[v] = true
+					}
+				}
+			}
 			total, guarded := 0, 0
 			var firstPos token.Pos
 			for _, p := range gi.G.Prods {
@@ -680,11 +722,18 @@ func ruleAR() Rule {
 					if !firstPos.IsValid() {
 						firstPos = call.Pos()
 					}
+					// the store made inside a helper: the guard around the store there
+					if g := c.P.FuncOf(fo); g != nil && g != set {
+						if c.storeGuardedIn(g, set, errField, faultFlags, 0) {
+							guarded++
+							return true
+						}
+					}
 					// a dominating test mentioning the error slot (directly or via a helper)
 					for _, gd := range guardsOf(c.P, call, cc) {
 						mentions := false
 						ast.Inspect(gd.cond, func(y ast.Node) bool {
-							if se, ok := y.(*ast.SelectorExpr); ok && core.FieldOf(info, se) == errField {
+							if se, ok := y.(*ast.SelectorExpr); ok && (core.FieldOf(info, se) == errField || faultFlags[core.FieldOf(info, se)]) {
 								mentions = true
 							}
 							if cl, ok := y.(*ast.CallExpr); ok {
@@ -735,4 +784,46 @@ func readsField(f *core.Func, v *types.Var) bool {
 		return true
 	})
 	return found
+}
+
+// storeGuardedIn reports whether every call of set inside helper g (or inside
+// the helpers it hands on to) is dominated by a test that mentions the error
+// slot or one of the parser-side fault flags.
+func (c *Ctx) storeGuardedIn(g, set *core.Func, errField *types.Var, flags map[*types.Var]bool, depth int) bool {
+	if g == nil || g.Body == nil || depth > 2 {
+		return false
+	}
+	gi := g.Info()
+	n, ok := 0, true
+	g.OwnNodes(func(x ast.Node) bool {
+		call, isCall := x.(*ast.CallExpr)
+		if !isCall {
+			return true
+		}
+		fo := core.StaticCallee(gi, call)
+		if fo == nil {
+			return true
+		}
+		h := c.P.FuncOf(fo)
+		switch {
+		case h == set:
+			n++
+			mentions := false
+			for _, gd := range guardsOf(c.P, call, nil) {
+				ast.Inspect(gd.cond, func(y ast.Node) bool {
+					if se, isSel := y.(*ast.SelectorExpr); isSel {
+						if v := core.FieldOf(gi, se); v != nil && (v == errField || flags[v]) {
+							mentions = true
+						}
+					}
+					return true
+				})
+			}
+			if !mentions {
+				ok = false
+			}
+		}
+		return true
+	})
+	return n > 0 && ok
 }
